@@ -37,6 +37,12 @@ def make_case(seed: int, tier: str, prop: str, opts=None) -> Dict[str, Any]:
     sc = gen.gen_core(seed, tier, transport_mix="mixed")
     # (debug mode records the execution graph; it must not change what happens to a bad reply)
     sc["config"]["debug"] = h64(seed, "debug") % 6 == 0
+    if h64(seed, "oldapi") % 4 == 0:
+        # simulators that announce an older API version (adapters sit between them and the scheduler): their
+        # malformed replies are malformed all the same
+        for i_, s_ in enumerate(sc["sims"]):
+            if h64(seed, "oldapi", i_) % 2 == 0 and s_["type"] == "time-based" and not s_.get("any_inputs"):
+                s_["api"] = ("2.4", "2.2", "2.0")[h64(seed, "oldapiv", i_) % 3]
     sp = gen.gen_schedule(seed, sc, h64(seed, "which") % 4)
     return {"scenario": sc, "schedule": sp, "sample_seed": seed,
             "max_points": (14 if tier == "quick" else None)}
